@@ -567,6 +567,9 @@ struct Scenario {
     std::function<void(Plan const&, Ctx&)> run;
     std::vector<std::string> props; // properties this scenario's oracles can decide
     int maxSteps = 40;
+    // false for scenarios whose library code is selected per compiler (`#if defined(__clang__)` builtins): their logs are
+    // left out of the g++ / clang comparison
+    bool compilerNeutral = true;
 
     [[nodiscard]] auto op_index(std::string const& n) const -> int
     {
